@@ -73,7 +73,9 @@ for name, broken in BROKEN.items():
             problems.append((name, position, f"{type(e).__name__}: {e}"))
             continue
         records = [r.title for r, e in backend.errors]
-        if result != expected_others or records != ["broken"]:
+        # the loader already holds the one error record of the broken rule (collection.errors / rule.errors); after the
+        # repair the backend converts the placeholder to no query and adds no second record - both outcomes are accepted
+        if result != expected_others or records not in (["broken"], []):
             problems.append((name, position, result, records))
 
 if problems:
